@@ -5,6 +5,11 @@ Each is "numpy applied to every row on its own" or the obvious row-wise meaning.
 -/
 namespace Spec
 
+/-- write `v` at position `k` of the row-major enumeration of the cells (rows keep their lengths) -/
+def setFlat {α} : List (List α) → Nat → α → List (List α)
+  | [], _, _ => []
+  | r :: rs, k, v => if k < r.length then r.set k v :: rs else r :: setFlat rs (k - r.length) v
+
 /-- prefix sums of one row (`np.cumsum(row)`) -/
 def prefixSums (l : List Int) : List Int := Np.cumsum l
 
